@@ -145,17 +145,21 @@ class JsonCodeGen(IntermediateCodeGen):
 
                 modData[object_oid].append(module)
 
-            if modData:
-                unique_prefixes = {}
-                for oid in sorted(modData, key=lambda x: x.count('.')):
-                    for oid_prefix, modules in unique_prefixes.items():
-                        if ((oid == oid_prefix or oid.startswith(oid_prefix + '.')) and
-                                set(modules).issuperset(modData[oid])):
-                            break
-                    else:
-                        unique_prefixes[oid] = modData[oid]
+        # compact once, when all MIBs are in: drop OIDs which a shorter
+        # OID of the same MIB(s) already covers
+        modData = outDict['oids']
 
-                outDict['oids'] = unique_prefixes
+        if modData:
+            unique_prefixes = {}
+            for oid in sorted(modData, key=lambda x: x.count('.')):
+                for oid_prefix, modules in unique_prefixes.items():
+                    if ((oid == oid_prefix or oid.startswith(oid_prefix + '.')) and
+                            set(modules).issuperset(modData[oid])):
+                        break
+                else:
+                    unique_prefixes[oid] = modData[oid]
+
+            outDict['oids'] = unique_prefixes
 
         if 'comments' in kwargs:
             outDict['meta']['comments'] = kwargs['comments']
